@@ -653,11 +653,13 @@ class Nest(MultiCrossBlockRepeat):
                 pass
             else:
                 raise ValueError("Outer and inner blocks cannot have different alignment.")
-        design = outer_block.design + []
-        for f in inner_block.design:
+        # Start from the blocks' original designs, like their original constraints:
+        # a factor that weight desugaring replaced is desugared again for this block
+        design = outer_block.orig_design + []
+        for f in inner_block.orig_design:
             if f not in design:
                 design.append(f)
-        crossings = outer_block.crossings + inner_block.crossings
+        crossings = outer_block.orig_crossings + inner_block.orig_crossings
         inner_len = inner_block.trials_per_sample() - inner_block.common_preamble_size()
         outer_sustain_counts = [inner_len * sc for sc in outer_block.crossing_sustain_counts]
         crossing_sustain_counts = outer_sustain_counts + inner_block.crossing_sustain_counts
@@ -709,10 +711,12 @@ class Merge(MultiCrossBlock):
         crossing_weights = []
         constraints = _own_constraints(constraints)
         for b in blocks:
-            for f in b.design:
+            # Start from the blocks' original designs, like their original constraints:
+            # a factor that weight desugaring replaced is desugared again for this block
+            for f in b.orig_design:
                 if f not in design:
                     design.append(f)
-            for c in b.crossings:
+            for c in b.orig_crossings:
                 crossings.append(c)
             for count in b.crossing_sustain_counts:
                 crossing_sustain_counts.append(count)
